@@ -105,6 +105,11 @@ def check_push(repo, rep):
     raise Undecided('cannot identify the size / result fields of HeapDict.__init__')
   sizeexprs = {'%s.%s' % (selfn, s) for s in sizefields}
   qcanon = '%s.%s[%s]' % (selfn, resultfield, keyn)
+  # per-key isolation: push writes no instance field other than the queue of its key
+  for name, node, value, via in cf.stores(f):
+    rep.violation('R2/per-key', f.qualname, 'self.%s = %s' % (name, norm(value)[:50] if value is not None else '...'),
+                  'HeapDict.push stores into the instance field %s, which is shared by all keys: what one key keeps then depends on pushes made under other keys'
+                  % name, f.loc(node.ast))
 
   def queue_of(node, e):
     t, _ = rd.canon(node, e)
